@@ -354,6 +354,26 @@ func (r *Runner) exec(c model.Call) model.Obs {
 			first.ModifyDeadlineSeconds = make([]int32, len(c.AckIDs))
 		case "later-nack":
 			reqs = append(reqs, &pubsubpb.StreamingPullRequest{ModifyDeadlineAckIds: c.AckIDs, ModifyDeadlineSeconds: make([]int32, len(c.AckIDs))})
+		case "later-extend-then-nack":
+			// two follow-ups on ONE stream: a long extension, then a zero deadline
+			secs := make([]int32, len(c.AckIDs))
+			for i := range secs {
+				secs[i] = 600
+			}
+			reqs = append(reqs, &pubsubpb.StreamingPullRequest{ModifyDeadlineAckIds: c.AckIDs, ModifyDeadlineSeconds: secs},
+				&pubsubpb.StreamingPullRequest{ModifyDeadlineAckIds: c.AckIDs, ModifyDeadlineSeconds: make([]int32, len(c.AckIDs))})
+		case "later-ack+extend", "later-ack+nack":
+			// ONE follow-up that acknowledges the first id and changes the deadline of the rest
+			if len(c.AckIDs) > 0 {
+				rest := c.AckIDs[1:]
+				secs := make([]int32, len(rest))
+				if c.Op.Tgt == "later-ack+extend" {
+					for i := range secs {
+						secs[i] = 60
+					}
+				}
+				reqs = append(reqs, &pubsubpb.StreamingPullRequest{AckIds: c.AckIDs[:1], ModifyDeadlineAckIds: rest, ModifyDeadlineSeconds: secs})
+			}
 		case "later-extend":
 			secs := make([]int32, len(c.AckIDs))
 			for i := range secs {
